@@ -424,6 +424,14 @@ func (w *yieldWriter) Write(p []byte) (int, error) {
 	return len(p), nil
 }
 
+// plen: payload length of the k-th packet of a sender: small, now and then 16 KiB and more
+func plen(k int) int {
+	if k%20 == 3 {
+		return 16384 + 1000*(k%7)
+	}
+	return 3 + (k % 40)
+}
+
 // encodeStress: many goroutines encode different PUBLISH packets at the same time; every packet that
 // reaches the writer must decode to one of the packets sent, each exactly once.
 func encodeStress() (total, bad int) {
@@ -437,7 +445,7 @@ func encodeStress() (total, bad int) {
 		go func(g int) {
 			defer wg.Done()
 			for k := 0; k < per; k++ {
-				pl := bytes.Repeat([]byte{byte(g)}, 3+(k%40))
+				pl := bytes.Repeat([]byte{byte(g)}, plen(k))
 				if k%25 == 7 { // a packet that is refused as too large, in between
 					(&mqtt.Publish{Header: mqtt.Header{QOS: 1}, MessageID: uint16(k), Topic: []byte("big"), Payload: make([]byte, 70000)}).EncodeTo(w)
 				}
@@ -457,7 +465,7 @@ func encodeStress() (total, bad int) {
 		}
 		var g int
 		if _, e := fmt.Sscanf(string(pb.Topic), "t/%d/", &g); e != nil || g < 0 || g >= senders || int(pb.MessageID) >= per ||
-			!bytes.Equal(pb.Payload, bytes.Repeat([]byte{byte(g)}, 3+(int(pb.MessageID)%40))) {
+			!bytes.Equal(pb.Payload, bytes.Repeat([]byte{byte(g)}, plen(int(pb.MessageID)))) {
 			bad++
 			continue
 		}
